@@ -236,8 +236,8 @@ Qed.
 Lemma step_alloc_inv bits s x c' k (reg : bool) : 0 <= bits -> Inv bits s ->
   next_channel bits (live s) (counter s) = Some (x, c', k) ->
   (forall p t, In (p, t) (pending s) -> t + (k + 1) < 2 ^ bits) ->
-  Inv bits (if reg then mkSt c' (x :: live s) (travel (k + 1) (pending s))
-            else mkSt c' (live s) ((x, 0) :: travel (k + 1) (pending s))).
+  Inv bits (if reg then mkSt c' (x :: live s) (travel (k + 1) (pending s)) (x :: opening s)
+            else mkSt c' (live s) ((x, 0) :: travel (k + 1) (pending s)) (opening s)).
 Proof.
   intros Hb HI HN Hbound. pose proof (pow_pos bits Hb) as HM.
   pose proof (alloc_not_pending bits s x c' k Hb HI HN Hbound) as Hnp.
@@ -271,7 +271,7 @@ Lemma step_inv bits s o s' out : 0 <= bits -> Inv bits s ->
   step bits s o = SOk s' out -> window_ok bits s' = true -> Inv bits s'.
 Proof.
   intros Hb HI HS HW. pose proof (travel_bound bits s' HW) as HB.
-  destruct o as [| |p|p|x]; cbn [step] in HS.
+  destruct o as [| |p|p|x|x|x]; cbn [step] in HS.
   - destruct (next_channel bits (live s) (counter s)) as [[[y c'] k]|] eqn:EN; [|discriminate].
     injection HS as <- <-.
     apply (step_alloc_inv bits s y c' k true Hb HI EN).
@@ -305,6 +305,39 @@ Proof.
     + intros y Hy. apply In_remove_id in Hy. now apply (inv_live_range bits s HI).
     + apply NoDup_remove_id, HI.
     + intros y Hy Hp. apply In_remove_id in Hy. now apply (inv_disjoint bits s HI y).
+  - destruct (mem x (live s)); injection HS as <- <-; [|exact HI].
+    constructor; cbn [counter live pending]; apply HI.
+  - destruct (mem x (opening s)); injection HS as <- <-; [|exact HI].
+    constructor; cbn [counter live pending]; try apply HI.
+    + intros y Hy. apply In_remove_id in Hy. now apply (inv_live_range bits s HI).
+    + apply NoDup_remove_id, HI.
+    + intros y Hy Hp. apply In_remove_id in Hy. now apply (inv_disjoint bits s HI y).
+Qed.
+
+(* which steps may take an id out of the live map: the close / unlink of that channel, or an
+   OPEN_FAILURE for a local open that is still waiting for its reply -- nothing else *)
+Lemma removal_causes bits s o s' out x :
+  step bits s o = SOk s' out -> In x (live s) -> ~ In x (live s') ->
+  o = Close x \/ (o = OpenFailure x /\ In x (opening s)).
+Proof.
+  intros HS Hl Hn. destruct o as [| |p|p|y|y|y]; cbn [step] in HS.
+  - destruct (next_channel bits (live s) (counter s)) as [[[z c'] k]|]; [|discriminate].
+    injection HS as <- <-. exfalso. apply Hn. cbn. now right.
+  - destruct (next_channel bits (live s) (counter s)) as [[[z c'] k]|]; [|discriminate].
+    injection HS as <- <-. exfalso. now apply Hn.
+  - destruct (mem p (pend_ids (pending s))); injection HS as <- <-; exfalso; apply Hn; cbn; auto.
+  - injection HS as <- <-. exfalso. now apply Hn.
+  - injection HS as <- <-. cbn [live] in Hn. left. f_equal.
+    destruct (Z.eq_dec y x) as [E|E]; [exact E|]. exfalso. apply Hn.
+    clear Hn. induction (live s) as [|z r IH]; [destruct Hl|]. cbn [remove_id].
+    destruct (z =? y) eqn:Ez; destruct Hl as [->|Hl]; try lia; [now apply IH | now left | right; now apply IH].
+  - destruct (mem y (live s)); injection HS as <- <-; exfalso; now apply Hn.
+  - destruct (mem y (opening s)) eqn:Em; [|injection HS as <- <-; exfalso; now apply Hn].
+    injection HS as <- <-. cbn [live] in Hn. apply mem_In in Em.
+    destruct (Z.eq_dec y x) as [E|E]; [subst y; right; split; [reflexivity | exact Em]|].
+    exfalso. apply Hn. clear Hn.
+    induction (live s) as [|z r IH]; [destruct Hl|]. cbn [remove_id].
+    destruct (z =? y) eqn:Ez; destruct Hl as [->|Hl]; try lia; [now apply IH | now left | right; now apply IH].
 Qed.
 
 Lemma run_inv bits ops : 0 <= bits -> forall s outs s' outs',
@@ -377,7 +410,7 @@ Proof.
   split; [intros x [Hx|Hx]; [now apply (inv_live_range bits s HR) | now apply (inv_pend_range bits s HR)]|].
   intros o s' out HS HW. pose proof (step_inv bits s o s' out Hb HR HS HW) as HI'.
   pose proof (travel_bound bits s' HW) as HB.
-  destruct o as [| |p|p|x]; try exact I; cbn [step] in HS.
+  destruct o as [| |p|p|x|x|x]; try exact I; cbn [step] in HS.
   - destruct (next_channel bits (live s) (counter s)) as [[[y c'] k]|] eqn:EN; [|discriminate].
     injection HS as <- <-. pose proof EN as ER. apply range_thm in ER; [|assumption|apply HR].
     split; [apply ER|]. split; [|apply ER].
